@@ -164,6 +164,10 @@ func (m *DefaultInterfaceMocker) Returns(values ...interface{}) *When {
 	if m.when != nil {
 		return m.when.Returns(values...)
 	}
+	if len(values) == 0 {
+		// Returns() 不带任何值等同于 Return(): 需要检查返回值个数, 而不是织入一个没有任何返回值的桩
+		return m.Return()
+	}
 
 	var (
 		when *When
